@@ -3,7 +3,8 @@
 calls `tick(op, args)`; the controller can kill the process (os._exit) at operation number k
 (completed operations are durable, the one in flight is not started), or block before each operation
 until the scheduler grants a step (pipe protocol), which gives deterministic interleavings of real
-processes at file-system-operation granularity, torn writes included (a write is split in two halves).
+processes at file-system-operation granularity, torn writes included (a write is split in two halves, and it happens when the
+file is flushed or closed, not when `write` is called: small writes stay in the buffer of the file object).
 """
 import builtins
 import os
@@ -93,27 +94,42 @@ def install(base):
     os.path.exists, os.path.lexists, os.path.isdir, os.path.realpath = exists, lexists, isdir, realpath
 
     class F(object):
+        """a file opened for writing: what is written stays in the buffer of the file object (as it does in Python for anything
+        smaller than the buffer) and reaches the file - in two halves - when the file is flushed or closed. A rename made before
+        the close therefore publishes the file without its content."""
         def __init__(self, f, name):
             self.f, self.name = f, name
+            self.pending = []
 
         def write(self, b):
-            h = len(b) // 2
-            tick("write1", self.name, h)
-            self.f.write(b[:h])
+            self.pending.append(bytes(b) if not isinstance(b, str) else b)
+            return len(b)
+
+        def _drain(self):
+            for b in self.pending:
+                h = len(b) // 2
+                tick("write1", self.name, h)
+                self.f.write(b[:h])
+                self.f.flush()
+                tick("write2", self.name, len(b) - h)
+                self.f.write(b[h:])
+                self.f.flush()
+            del self.pending[:]
+
+        def flush(self):
+            self._drain()
             self.f.flush()
-            tick("write2", self.name, len(b) - h)
-            r = self.f.write(b[h:])
-            self.f.flush()
-            return (r or 0) + h
 
         def __enter__(self):
             return self
 
         def __exit__(self, *e):
+            self._drain()
             tick("close", self.name)
             self.f.close()
 
         def close(self):
+            self._drain()
             tick("close", self.name)
             self.f.close()
 
